@@ -59,14 +59,14 @@ def rule_tokens(ctx):
             "#true / #false are printed as $true / $false")
     b = printers.display_impl(fx, "tptp", "GeneralTerm")
     t = printers.token_table(printers.evaluate(fx, b).value) or {}
-    ref = {"GeneralTerm::Infimum": "c__infimum__", "GeneralTerm::Supremum": "c__supremum__", "GeneralTerm::FunctionConstant(_)": "{c}_g", "GeneralTerm::Variable(_)": "{v}_g",
+    ref = {"GeneralTerm::Infimum": "c__infimum__", "GeneralTerm::Supremum": "c__supremum__", "GeneralTerm::FunctionConstant(_)": "{}_g", "GeneralTerm::Variable(_)": "{}_g",
            "GeneralTerm::IntegerTerm(_)": "f__integer__({})", "GeneralTerm::SymbolicTerm(_)": "f__symbolic__({})"}
     for k, tok in ref.items():
         ctx.add("TAB-MAP", "GeneralTerm:%s" % k.split("::")[1], t.get(k) == tok, ctx.site(b), "%s -> `%s` (reference `%s`)" % (k, t.get(k), tok))
     b = printers.display_impl(fx, "tptp", "IntegerTerm")
     p = printers.evaluate(fx, b)
     arms = {a[0]: a[-1] for a in p.value[2]} if p.value[0] == "match" else {}
-    ok = arms.get("IntegerTerm::UnaryOperation{}", ("",) * 2)[1] == "{op}({arg})" and arms.get("IntegerTerm::BinaryOperation{}", ("",) * 2)[1] == "{op}({lhs}, {rhs})"
+    ok = arms.get("IntegerTerm::UnaryOperation{}", ("",) * 2)[1] == "{}({})" and arms.get("IntegerTerm::BinaryOperation{}", ("",) * 2)[1] == "{}({}, {})"
     ctx.add("TAB-MAP", "IntegerTerm:application", ok, ctx.site(b), "arithmetic is printed in prefix form op(args) with the operator's token")
     if ok:
         bo = arms["IntegerTerm::BinaryOperation{}"][2]
@@ -77,12 +77,20 @@ def rule_tokens(ctx):
     neg = [o for o in num if len(o[0]) == 2 and o[0][1][1] is True]
     pos = [o for o in num if len(o[0]) == 2 and o[0][1][1] is False]
     N = ("proj", ("place", "self.0"), (("IntegerTerm::Numeral", "0"),))
-    ok = len(neg) == 1 and len(pos) == 1 and neg[0][0][1][0] == ("bin", "Lt", N, ("lit", 0)) and neg[0][2][1] == "$uminus({m})" and pos[0][2][:2] == ("write", "{n}") and pos[0][2][2] == (N,)
+    ok = len(neg) == 1 and len(pos) == 1 and neg[0][0][1][0] == ("bin", "Lt", N, ("lit", 0)) and neg[0][2][1] == "$uminus({})" and pos[0][2][:2] == ("write", "{}") and pos[0][2][2] == (N,)
     ctx.add("TAB-MAP", "IntegerTerm:numeral", ok, ctx.site(b), "n >= 0 is printed as n, n < 0 as $uminus(|n|)")
     if ok:
         m = neg[0][2][2][0]
         ctx.add("NUM", "numeral:abs-overflow", m[:2] == ("call", "isize::unsigned_abs") or (m[0] == "call" and "unsigned_abs" in m[1]), ctx.site(b),
                 "|n| must be computed without overflow for n = isize::MIN (found %s)" % (m[1] if m[0] == "call" else m,), construct=m)
+
+
+def _arm_args(v, pat):
+    """the arguments of the write! in the arm of that pattern"""
+    for a in v[2] if v[0] == "match" else ():
+        if a[0] == pat and a[-1][0] == "write":
+            return a[-1][2]
+    return None
 
 
 def rule_sorts(ctx):
@@ -94,10 +102,10 @@ def rule_sorts(ctx):
         t = printers.token_table(v) or {}
         tabs[ty] = t
         for s, suf in SUFFIX.items():
-            ctx.add("TAB-SIB", "%s:%s" % (ty, s.split("::")[1]), t.get(s) == "{name}" + suf and v[1] == ("place", "self.0.sort"), ctx.site(b), "%s of sort %s is printed as name%s" % (ty, s, suf))
-    occ = {"Sort::General": ("GeneralTerm", "GeneralTerm::Variable(_)", "{v}_g", "GeneralTerm::FunctionConstant(_)", "{c}_g"),
-           "Sort::Integer": ("IntegerTerm", "IntegerTerm::Variable(_)", "{v}_i", "IntegerTerm::FunctionConstant(_)", "{c}_i"),
-           "Sort::Symbol": ("SymbolicTerm", "SymbolicTerm::Variable(_)", "{v}_s", "SymbolicTerm::FunctionConstant(_)", "{c}_s")}
+            ctx.add("TAB-SIB", "%s:%s" % (ty, s.split("::")[1]), t.get(s) == "{}" + suf and v[1] == ("place", "self.0.sort") and _arm_args(v, s) == (("place", "self.0.name"),), ctx.site(b), "%s of sort %s is printed as name%s" % (ty, s, suf))
+    occ = {"Sort::General": ("GeneralTerm", "GeneralTerm::Variable(_)", "{}_g", "GeneralTerm::FunctionConstant(_)", "{}_g"),
+           "Sort::Integer": ("IntegerTerm", "IntegerTerm::Variable(_)", "{}_i", "IntegerTerm::FunctionConstant(_)", "{}_i"),
+           "Sort::Symbol": ("SymbolicTerm", "SymbolicTerm::Variable(_)", "{}_s", "SymbolicTerm::FunctionConstant(_)", "{}_s")}
     for s, (ty, vk, vt, ck, ct) in occ.items():
         b = printers.display_impl(fx, "tptp", ty)
         t = printers.token_table(printers.evaluate(fx, b).value) or {}
@@ -108,7 +116,7 @@ def rule_sorts(ctx):
                 "a %s-sorted function constant occurrence carries the declaration's suffix %s: `%s`" % (s, suf, t.get(ck)))
     b = printers.display_impl(fx, "tptp", "SymbolicTerm")
     t = printers.token_table(printers.evaluate(fx, b).value) or {}
-    ctx.add("TAB-SIB", "occurrence:symbol", t.get("SymbolicTerm::Symbol(_)") == "{s}", ctx.site(b), "a symbolic constant is printed as its bare name (declared as `name: symbol`)")
+    ctx.add("TAB-SIB", "occurrence:symbol", t.get("SymbolicTerm::Symbol(_)") == "{}", ctx.site(b), "a symbolic constant is printed as its bare name (declared as `name: symbol`)")
     # binder types
     b = printers.display_impl(fx, "tptp", "Quantification")
     p = printers.evaluate(fx, b)
@@ -135,7 +143,7 @@ def rule_sorts(ctx):
     pb = fx.fn("fmt", impl_self="verifying::problem::Problem", impl_trait="std::fmt::Display")
     pp = printers.evaluate(fx, pb)
     decl = [item for _, _, item in pp.out if item[0] == "write" and item[1].startswith("tff(type_function_constant")]
-    ok = len(decl) == 1 and decl[0][1] == "tff(type_function_constant_{i}, type, {name}: {sort}).\n" and decl[0][2][1][:2] == ("ctor", "Format")
+    ok = len(decl) == 1 and decl[0][1] == "tff(type_function_constant_{}, type, {}: {}).\n" and decl[0][2][1][:2] == ("ctor", "Format")
     if ok:
         m = decl[0][2][2]
         ok = m[0] == "match" and {a[0]: a[1][1] for a in m[2]} == TYPE
@@ -284,7 +292,7 @@ def rule_prec(ctx):
     v = printers.evaluate(fx, fb).value
     arms = {a[0]: a[-1] for a in v[2]} if v[0] == "match" else {}
     q = arms.get("Formula::QuantifiedFormula{}")
-    ctx.add("PRN-T", "quantified-body", q is not None and q[:2] == ("write", "{connective}: ({formula})"), ctx.site(fb), "Q[..]: (body) - the body of a quantifier is always parenthesised")
+    ctx.add("PRN-T", "quantified-body", q is not None and q[:2] == ("write", "{}: ({})"), ctx.site(fb), "Q[..]: (body) - the body of a quantifier is always parenthesised")
     un = arms.get("Formula::UnaryFormula{}")
     bi = arms.get("Formula::BinaryFormula{}")
     ok = un is not None and un[:2] == ("call", "Precedence::fmt_unary") and bi is not None and bi[:2] == ("call", "Precedence::fmt_binary") and \
@@ -294,7 +302,7 @@ def rule_prec(ctx):
     af = fx.fn("fmt", impl_self="verifying::problem::AnnotatedFormula", impl_trait="std::fmt::Display")
     va = printers.evaluate(fx, af)
     w = [item for _, _, item in va.out if item[0] == "write"]
-    ctx.add("PRN-T", "annotated", len(w) == 1 and w[0][1] == "tff({name}, {role}, {formula}).\n" and "tptp" in af["body"].__repr__()[:0] + "tptp", ctx.site(af), "tff(name, role, formula). with the TPTP formatter")
+    ctx.add("PRN-T", "annotated", len(w) == 1 and w[0][1] == "tff({}, {}, {}).\n" and "tptp" in af["body"].__repr__()[:0] + "tptp", ctx.site(af), "tff(name, role, formula). with the TPTP formatter")
     uses = [n_ for n_ in hq.walk(af["body"]) if n_.get("k") == "Call" and (hq.ctor_of(n_) or ("",))[0].endswith("tptp::Format")]
     ctx.add("PRN-T", "annotated-formatter", len(uses) == 1, ctx.site(af), "problem formulas are rendered with formatting::fol::sigma_0::tptp::Format")
 
